@@ -69,7 +69,28 @@ type State struct {
 }
 
 type WriteRec struct {
-	Objs map[int]bool
+	Objs  map[int]bool
+	Paths map[int]map[string][]PathElem // written field paths (prefix up to the first array index)
+}
+
+func (w *WriteRec) note(obj int, path []PathElem) {
+	w.Objs[obj] = true
+	if w.Paths == nil {
+		w.Paths = map[int]map[string][]PathElem{}
+	}
+	var pre []PathElem
+	key := ""
+	for _, pe := range path {
+		if pe.Idx != nil {
+			break
+		}
+		pre = append(pre, pe)
+		key += fmt.Sprintf(".%d", pe.Field)
+	}
+	if w.Paths[obj] == nil {
+		w.Paths[obj] = map[string][]PathElem{}
+	}
+	w.Paths[obj][key] = pre
 }
 
 func (s *State) clone() *State {
@@ -179,6 +200,9 @@ type Exec struct {
 	globalIDs  map[*ssa.Global]int
 	GlobalInit func(e *Exec, st *State, g *ssa.Global) (Val, bool)
 	preState   *State
+	forcedInt  bool
+	inits      map[*ssa.Package]*initResult
+	initRunning *ssa.Package
 	rootEnv    *SpecEnv
 }
 
@@ -224,6 +248,9 @@ func (e *Exec) rangeFact(t *Term, ty types.Type) *Term {
 		return e.C.True()
 	}
 	lo, hi := typeRange(ty)
+	if t.Op == "var" {
+		e.C.setIv(t, lo, hi)
+	}
 	return e.C.And(e.C.ILe(e.C.IntConst(lo), t), e.C.ILe(t, e.C.IntConst(hi)))
 }
 
@@ -232,6 +259,9 @@ const maxLenBits = 48
 // lenFact: 0 <= l <= 2^48
 func (e *Exec) lenFact(l *Term) *Term {
 	if e.IntMode {
+		if l.Op == "var" {
+			e.C.setIv(l, big.NewInt(0), new(big.Int).Lsh(big.NewInt(1), maxLenBits))
+		}
 		return e.C.And(e.C.ILe(e.C.Inti(0), l), e.C.ILe(l, e.C.IntConst(new(big.Int).Lsh(big.NewInt(1), maxLenBits))))
 	}
 	return e.C.ULe(l, e.C.BVConst(new(big.Int).Lsh(big.NewInt(1), maxLenBits), 64))
